@@ -136,6 +136,20 @@ def scenarios(tier, scen_cfg):
     return [{"sc": i + 1, "ep": c["ep"], "shape": c["shape"]} for i, c in enumerate(calls)]
 
 
+def strict(rows):
+    """VERIF_C16_DECODER_PANIC=violation: a panic inside the HTTP decoding layer of a client library beneath a call
+    Vouch makes is treated as a Crash of Vouch (the process does die) instead of an input outside the property's
+    quantifier (see Robustness!DecoderPanic and docs/C16.md).  Default: observation only."""
+    if os.environ.get("VERIF_C16_DECODER_PANIC") != "violation":
+        return rows
+    out = []
+    for r in rows:
+        if r.get("ev") == "DecoderPanic":
+            r = dict(r, ev="Crash", frame="%s -> %s" % (r.get("via"), r.get("decoder")))
+        out.append(r)
+    return out
+
+
 def split(rows):
     per = {}
     for r in rows:
@@ -158,7 +172,7 @@ def crash_of(rows):
 
 def check(v, sc, trace_cfg, full=True):
     by_id = {s["sc"]: s for s in sc}
-    rows = driver(sc, "batch")
+    rows = strict(driver(sc, "batch"))
     per = split(rows)
     missing = [i for i in by_id if i not in per or len(per[i]) < 3]
     stuck = [r for r in rows if r.get("ev") == "Stuck"]
@@ -216,7 +230,7 @@ def check(v, sc, trace_cfg, full=True):
         sid = vf.scenario_of_line(sel, res["line"])
         pos = ids.index(sid)
         accepted += pos
-        rr = driver([by_id[sid]], "confirm")
+        rr = strict(driver([by_id[sid]], "confirm"))
         res2 = validate(rr, trace_cfg, "confirm")
         if res2["accepted"]:
             v.unreproduced.append("scenario %s: %s" % (sid, res["why"]))
@@ -244,7 +258,7 @@ def check(v, sc, trace_cfg, full=True):
         rep = members[0]
         rr = None
         for attempt in range(3):
-            rr = driver([by_id[rep]], "confirm-crash")
+            rr = strict(driver([by_id[rep]], "confirm-crash"))
             if crash_of(rr) is not None:
                 break
             rr = None
@@ -285,7 +299,12 @@ def run(tier):
     for s in sc:
         sizes[s["ep"]] = sizes.get(s["ep"], 0) + 1
     v.coverage["lattice_points_run"] = sizes
-    check(v, sc, trace_cfg)
+    try:
+        check(v, sc, trace_cfg)
+    finally:
+        for name in ("Scen_Robustness_dev.cfg", "Trace_Robustness_dev.cfg"):   # development runs only
+            if os.path.exists(os.path.join(vf.SPEC, name)):
+                os.remove(os.path.join(vf.SPEC, name))
     v.coverage["rule"] = ("one evaluation = one lattice point of Robustness!Shapes(ep) (enumerated by TLC) executed on the real "
                           "code; non-trivial = the input was deliverable and reached Vouch (Outcome or Crash logged); "
                           "distinct by entry point + shape")
